@@ -8,6 +8,7 @@ import (
 	"fmt"
 	"math"
 	"math/rand"
+	"os"
 	"path/filepath"
 	"regexp"
 	"strings"
@@ -169,8 +170,34 @@ func (c16) Generate(c *Ctx) []any {
 		}
 		out = append(out, in)
 	}
+	// the case functions on every initialism the source lists (and the ones golint knows), in every spelling
+	words := append([]string{}, c16Golint...)
+	if b, err := os.ReadFile(filepath.Join(c.Src, "template_funcs", "funcmap.go")); err == nil {
+		if m := regexp.MustCompile(`(?s)golintInitialisms\s*=\s*\[\]string\{(.*?)\}`).FindSubmatch(b); m != nil {
+			for _, w := range regexp.MustCompile(`"([^"]*)"`).FindAllSubmatch(m[1], -1) {
+				words = append(words, string(w[1]))
+			}
+		}
+	}
+	seen := map[string]bool{}
+	for _, w := range words {
+		if seen[w] || w == "" {
+			continue
+		}
+		seen[w] = true
+		lw := strings.ToLower(w)
+		for _, form := range []string{lw, w, strings.ToUpper(lw[:1]) + lw[1:], lw + "s", "x" + lw, lw[:1] + strings.ToUpper(lw[1:])} {
+			for _, fn := range []string{"exported", "firstIsLower"} {
+				if _, ok := c16Sig[fn]; ok {
+					out = append(out, c16Input{Fn: fn, Args: []c16Val{{S: hx(form)}}})
+				}
+			}
+		}
+	}
 	return out
 }
+
+var c16Golint = []string{"ACL", "API", "ASCII", "CPU", "CSS", "DNS", "EOF", "GUID", "HTML", "HTTP", "HTTPS", "ID", "IP", "JSON", "LHS", "QPS", "RAM", "RHS", "RPC", "SLA", "SMTP", "SQL", "SSH", "TCP", "TLS", "TTL", "UDP", "UI", "UID", "UUID", "URI", "URL", "UTF8", "VM", "XML", "XMPP", "XSRF", "XSS"}
 
 func sortStrings(a []string) {
 	for i := 1; i < len(a); i++ {
